@@ -25,6 +25,8 @@ pub fn run(progs: &str, depth: usize, out: &str) -> std::io::Result<()> {
             continue;
         }
         let prog: Value = serde_json::from_str(line).expect("program");
+        // a program may cap the depth of its sequences (files with many pages have many damaged variants)
+        let depth = prog.get("max_depth").and_then(|d| d.as_u64()).map(|d| (d as usize).min(depth)).unwrap_or(depth);
         let dev = Dev::new();
         let w = run_writer(&prog, &dev, &mut null);
         if !(w.all_ok && w.finalize_called) {
